@@ -33,7 +33,11 @@ PY = "/venv/bin/python"
 JOBS = 16
 
 TM_NAMES = ["type_map", "type_map", "tmap", "_t", "TYPES", "typeMap2", "values", "name", "fields", "t"]
-SN_NAMES = ["schema", "schema", "my_schema", "_s", "SCHEMA", "cast", "GraphQLSchema", "List", "s"]
+SN_NAMES = ["schema", "schema", "my_schema", "_s", "SCHEMA", "match", "type", "Schema2", "s"]
+# configurations the settings must refuse (import of the generated module, keyword, not an identifier, equal names)
+BAD_NAMES = ["cast", "GraphQLObjectType", "GraphQLField", "GraphQLNonNull", "Undefined", "List", "GraphQLString",
+             "GraphQLSchema", "TypeMap", "DirectiveLocation", "GraphQLArgument", "GraphQLID", "GraphQLNamedType",
+             "class", "None", "lambda", "1x", "a-b", "", "a b"]
 SHADOW_TM = ["cast", "GraphQLObjectType", "GraphQLField", "GraphQLNonNull", "Undefined", "List",
              "GraphQLString", "GraphQLSchema", "TypeMap", "DirectiveLocation", "GraphQLArgument", "GraphQLID"]
 
@@ -124,7 +128,7 @@ CORPUS = [
      "sn": "schema",
      "sdl": 'directive @tag repeatable on FIELD_DEFINITION\n\n"dt" scalar DateTime @specifiedBy(url: "https://example.com/dt")\n\n'
             'type Query {\n  f(old: Int @deprecated(reason: "r"), new: Int): DateTime\n}\n'},
-    {"name": "open:C16-typemap-name-shadows-import", "source": "local", "target": "py", "tm": "cast", "sn": "schema",
+    {"name": "fixed:C16-typemap-name-shadows-import", "source": "local", "target": "py", "tm": "cast", "sn": "schema",
      "sdl": "type Query {\n  f: Query\n}\n"},
 ]
 
@@ -161,8 +165,16 @@ def make_scenarios(ctx, n):
             sc["nonprintable"] = True
         else:
             sc["shadow"] = True
-        sc["tm"] = rng.choice(SHADOW_TM) if sc.get("shadow") else rng.choice(TM_NAMES)
+        sc["tm"] = rng.choice(TM_NAMES)
         sc["sn"] = rng.choice([s for s in SN_NAMES if s != sc["tm"]])
+        if sc.get("shadow"):
+            k = rng.randint(0, 2)
+            if k == 0:
+                sc["tm"] = rng.choice(BAD_NAMES)
+            elif k == 1:
+                sc["sn"] = rng.choice(BAD_NAMES)
+            else:
+                sc["sn"] = sc["tm"]
         g = c16_gen.Gen(random.Random(sc["seed"]), plain=sc["plain"], size=1.0 if not ctx.thorough else 1.4,
                         nonprintable=sc["nonprintable"], nonfinite=sc["nonfinite"],
                         printable=(sc["source"] == "remote" or sc["target"] != "py"))
@@ -206,7 +218,8 @@ def _run(ctx, tmp, server):
         "CPython 3.12 repr / ast.unparse / literal evaluation — modelled in Model/PyRepr.v for None/bool/int/float-lexeme/"
         "str/list/dict; fidelity domain ASCII + printable non-ASCII strings (K2 each run)",
         "black / isort / autoflake are meaning-preserving: inside K1 (files on disk are what is canonicalised)",
-        "floats are opaque lexemes (repr text); non-finite floats are outside wf_val",
+        "floats are opaque lexemes (repr text); +-inf are values, written 1e309 / -1e309; nan cannot arise",
+        "variable names are ASCII (str.isidentifier on non-ASCII identifiers is outside settings_ok)",
     ]
     # ---------------- K2a: constant tables ----------------
     from ariadne_codegen.graphql_schema_generators import constants as C
@@ -217,6 +230,23 @@ def _run(ctx, tmp, server):
     if [tuple(x) for x in tables[1]] != list(C.STANDARD_SCALARS.items()):
         run.broken("K2 STANDARD_SCALARS", f"model {tables[1]} vs repo {C.STANDARD_SCALARS}")
 
+    # model DATA derived from the source of /repo on every run; fail closed when the derivation no longer applies
+    try:
+        repo_imports = [("graphql", list(C.GRAPHQL_IMPORTS)), ("graphql.type.schema", list(C.TYPE_MAP_IMPORTS)),
+                        ("typing", list(C.TYPING_IMPORTS))]
+        reserved = set(C.RESERVED_VARIABLE_NAMES)
+    except AttributeError as e:
+        repo_imports, reserved = None, None
+        run.broken("K2 import tables", f"constants.py no longer exposes the import tables: {e}")
+    model_imports = [(m_, list(ns)) for m_, ns in tables[2]]
+    if repo_imports is not None:
+        if model_imports != repo_imports:
+            run.broken("K2 IMPORTS", f"model {model_imports} vs repo {repo_imports}")
+        if reserved != {n for _m, ns in model_imports for n in ns}:
+            run.broken("K2 RESERVED_VARIABLE_NAMES", f"repo {sorted(reserved)} vs model BUILTIN_NAMES")
+        _check_schema_py_uses_tables(run)
+    _check_constructor_defaults(run)
+    _settings_tie(ctx, run, tmp)
     import_names = {n for _m, ns in tables[2] for n in ns}
     # ---------------- scenarios ----------------
     n = 1600 if ctx.thorough else 220
@@ -304,6 +334,11 @@ def _run(ctx, tmp, server):
         sc["model"] = {"wf": wf == "t", "module": enc.model_module(mod),
                        "eval": None if ev == "none" else enc.u_schema(ev[1]), "stripped": enc.u_schema(stripped)}
 
+    # the model's verdict on the two names of every scenario (strategy_py = None iff not settings_ok)
+    sett = model.batch("C16", [[Sym("settings"), sc["tm"], sc["sn"]] for sc in scen], chunk=500)
+    for sc, a in zip(scen, sett):
+        sc["settings_ok"] = (a[0] == "t") if not model.is_error(a) else None
+
     # ---------------- K1 on .py targets ----------------
     eval_cmds = []
     for sc in live:
@@ -316,15 +351,14 @@ def _run(ctx, tmp, server):
         run.dist("model-domain", ("in" if sc["in_domain"] else "nonprintable-unicode") +
                  ("+nonfinite" if sc["nonfinite_any"] else ""))
         # theorem instance, run through the extracted code (cross-checks extraction):
-        if m["wf"] and m["eval"] != m["stripped"]:
+        if m["wf"] and sc["settings_ok"] and m["eval"] != m["stripped"]:
             run.broken("model self-check", f"wf_fschema holds but eval_module (gen_module S) <> strip_std S, seed {sc['seed']}")
         if m["stripped"] != sc["p_loaded"]:
             run.broken("codec", f"strip_std through the model differs from the Python-side filter, seed {sc['seed']}")
         # the hypothesis of the theorem must not be narrower than the property's quantifier
-        shadowing = sc["tm"] in SHADOW_TM
-        if not m["wf"] and not shadowing:
+        if not m["wf"]:
             run.broken("wf_fschema rejects a valid schema", json.dumps(_replay(sc))[:2500])
-        run.dist("wf_fschema", "true" if m["wf"] else "false(shadow)")
+        run.dist("wf_gen", "true" if m["wf"] else "false")
         if sc["target"] != "py" or not sc["gen"]["ok"] or not os.path.exists(sc["out"]):
             continue
         text = open(sc["out"], encoding="utf-8").read()
@@ -366,11 +400,19 @@ def _run(ctx, tmp, server):
         # a variable name equal to an import of the generated module may be refused up front
         # (fixes/C16-reserved-variable-names.diff): a typed rejection before anything is written is not a failure
         g = sc.get("gen") or {}
-        if (not g.get("ok")) and str(g.get("error", "")).startswith("InvalidConfiguration") \
-                and (sc["tm"] in import_names or sc["sn"] in import_names):
-            if os.path.exists(sc["out"]):
-                run.violation("configuration rejected but a file was written", _replay(sc, gen=g))
-            run.dist("names-rejected-up-front", f"{sc['tm']}/{sc['sn']}")
+        refused = (not g.get("ok")) and str(g.get("error", "")).startswith("InvalidConfiguration")
+        if sc.get("settings_ok") is False:
+            # strategy_py = None: the real strategy must refuse with the typed error before writing anything
+            if not refused:
+                run.violation(f"settings_ok is false for names {sc['tm']!r}/{sc['sn']!r} but the strategy did not refuse: "
+                              f"{g.get('error', 'generated')}", _replay(sc, gen=g))
+            elif os.path.exists(sc["out"]) or (sc["source"] == "remote" and str(sc["idx"]) in server.received):
+                run.violation("configuration refused but a file was written / the server was contacted", _replay(sc, gen=g))
+            run.dist("names-refused-up-front", f"{sc['tm']}/{sc['sn']}")
+            continue
+        if refused:
+            run.violation(f"settings_ok holds for names {sc['tm']!r}/{sc['sn']!r} but the strategy refused: {g.get('error')}",
+                          _replay(sc, gen=g))
             continue
         if sc["source"] == "remote" and sc.get("loaded") is None:
             run.violation(f"no introspection request reached the loopback server: {sc['gen'].get('error')}",
@@ -437,14 +479,14 @@ def _run(ctx, tmp, server):
                     else:
                         if re_[2] != [sc["tm"], sc["sn"]]:
                             problems.append(f"assignment targets {re_[2]} are not the configured names")
-                        if not (sc["tm"] in SHADOW_TM and not predicted_ok):
+                        if True:
                             if re_[1] != ref:
                                 k1_fail = k1_fail or ("eval_module on the REAL module does not give the source schema: "
                                                       + str(_first_diff(re_[1], ref)))
         # -- classes
         cls = None
-        if sc["tm"] in SHADOW_TM and not predicted_ok:
-            cls = "C16-typemap-name-shadows-import"
+        if sc.get("settings_ok") and not predicted_ok:
+            run.broken("model", f"settings_ok and wf_gen hold but eval_module (gen_module S) = None, seed {sc['seed']}")
         if problems:
             what = "; ".join(problems)[:600]
             if cls:
@@ -497,6 +539,104 @@ def _run(ctx, tmp, server):
 
     # ---------------- K2b: repr / literal_eval ----------------
     _k2_values(ctx, run, live)
+
+
+def _settings_tie(ctx, run, tmp):
+    """settings_ok (Model/SchemaGen.v) vs GraphQLSchemaSettings.__post_init__ on all ordered pairs of a name pool"""
+    import keyword
+
+    from ariadne_codegen.exceptions import InvalidConfiguration
+    from ariadne_codegen.graphql_schema_generators import constants as C
+    from ariadne_codegen.settings import GraphQLSchemaSettings
+
+    pool = list(dict.fromkeys(
+        TM_NAMES + SN_NAMES + BAD_NAMES + list(getattr(C, "RESERVED_VARIABLE_NAMES", ())) + keyword.kwlist
+        + keyword.softkwlist + ["_", "__", "a1", "A", "cast_", "list", "typing", "graphql", "x y", "9", "a.b", "é"[:0] + "e"]))
+    if not ctx.thorough:
+        rng = random.Random(ctx.seed)
+        keep = set(TM_NAMES + SN_NAMES + BAD_NAMES)
+        pool = [n for n in pool if n in keep or rng.random() < 0.45]
+    path = os.path.join(tmp, "settings_probe.graphql")
+    open(path, "w").write("type Query { f: Int }\n")
+    pairs = [(a, b) for a in pool for b in pool]
+    ans = model.batch("C16", [[Sym("settings"), a, b] for a, b in pairs], chunk=2000)
+    bad = 0
+    for (tm, sn), a in zip(pairs, ans):
+        run.count()
+        try:
+            GraphQLSchemaSettings(schema_path=path, target_file_path="x.py", schema_variable_name=sn,
+                                  type_map_variable_name=tm)
+            real = True
+        except InvalidConfiguration:
+            real = False
+        mod = a[0] == "t"
+        run.dist("settings", "accepted" if real else "refused")
+        if real != mod:
+            bad += 1
+            if bad <= 5:
+                run.broken("K1 settings_ok vs GraphQLSchemaSettings",
+                           f"type_map_variable_name={tm!r} schema_variable_name={sn!r}: repo "
+                           f"{'accepts' if real else 'refuses'}, model {'accepts' if mod else 'refuses'}")
+    run.extra["settings_pairs"] = len(pairs)
+
+
+def _check_schema_py_uses_tables(run):
+    """the imports written by generate_schema_module must BE the tables of constants.py (the settings refuse exactly
+    those names): every generate_import_from(names=...) in it is list(<table>)"""
+    import inspect
+
+    from ariadne_codegen.graphql_schema_generators import schema as M
+
+    try:
+        tree = ast.parse(inspect.getsource(M.generate_schema_module))
+    except (OSError, TypeError, AttributeError) as e:
+        run.broken("K2 schema.py import tables", f"cannot read generate_schema_module: {e}")
+        return
+    seen = []
+    for n in ast.walk(tree):
+        if isinstance(n, ast.Call) and isinstance(n.func, ast.Name) and n.func.id == "generate_import_from":
+            kw = {k.arg: k.value for k in n.keywords}
+            v = kw.get("names")
+            ok = isinstance(v, ast.Call) and isinstance(v.func, ast.Name) and v.func.id in ("list", "tuple") \
+                and len(v.args) == 1 and isinstance(v.args[0], ast.Name)
+            if not ok:
+                run.broken("K2 schema.py import tables", "generate_import_from(names=...) is not list(<constants table>): "
+                           + ast.unparse(n)[:200])
+                return
+            seen.append((v.args[0].id, ast.literal_eval(kw["from_"]) if isinstance(kw.get("from_"), ast.Constant) else None))
+    want = [("GRAPHQL_IMPORTS", "graphql"), ("TYPE_MAP_IMPORTS", "graphql.type.schema"), ("TYPING_IMPORTS", "typing")]
+    if seen != want:
+        run.broken("K2 schema.py import tables", f"imports written {seen}, expected {want}")
+
+
+def _check_constructor_defaults(run):
+    """eval_module gives an absent keyword the constructor's default: check those defaults in the installed graphql-core"""
+    import inspect
+
+    import graphql
+    from graphql import Undefined
+
+    want = {
+        "GraphQLField": {"args": None, "description": None, "deprecation_reason": None},
+        "GraphQLArgument": {"default_value": Undefined, "description": None, "deprecation_reason": None},
+        "GraphQLInputField": {"default_value": Undefined, "description": None, "deprecation_reason": None},
+        "GraphQLEnumValue": {"value": None, "description": None, "deprecation_reason": None},
+        "GraphQLDirective": {"is_repeatable": False, "args": None, "description": None},
+        "GraphQLScalarType": {"description": None, "specified_by_url": None},
+        "GraphQLObjectType": {"interfaces": None, "description": None},
+        "GraphQLInterfaceType": {"interfaces": None, "description": None},
+        "GraphQLUnionType": {"description": None},
+        "GraphQLEnumType": {"description": None},
+        "GraphQLInputObjectType": {"description": None},
+        "GraphQLSchema": {"query": None, "mutation": None, "subscription": None, "description": None},
+    }
+    for cls, kws in want.items():
+        sig = inspect.signature(getattr(graphql, cls).__init__)
+        for k, dflt in kws.items():
+            p = sig.parameters.get(k)
+            if p is None or p.default is not dflt:
+                run.broken("K2 constructor defaults", f"{cls}({k}=...) default is {getattr(p, 'default', 'absent')!r}, "
+                           f"eval_module assumes {dflt!r}")
 
 
 SPECIFIED = ("include", "skip", "deprecated", "specifiedBy", "oneOf")
